@@ -34,13 +34,13 @@ struct Run{
   SimSolver* live; std::vector<SimSolver*> spares;
   std::vector<Mat> ref; std::vector<double> refs;        // reference state per (ix,irho) and (ix,is)
   std::vector<double> grid;
-  StepCfg plan_sc; bool have_plan_sc;
+  StepCfg plan_sc; bool have_plan_sc; bool need_apply;   // the stepper settings are (re)applied only when the plan changes them: they must travel with the object
   int any_override; bool hmin_raised; double cur_hmin;   // -1: derived from the switches
   double acc_tol; double t_ini,sum_dt; long steps_total; StepCfg sc; bool trace_ops; std::string prop;
   uint64_t shape; bool nontrivial; double sim_time; long applies_total;
   unsigned nx,nsun,nrhos,nsc;
 
-  Run():plan(0),live(0),have_plan_sc(false),any_override(-1),hmin_raised(false),cur_hmin(0),acc_tol(0),t_ini(0),sum_dt(0),steps_total(0),trace_ops(false),shape(1469598103934665603ULL),nontrivial(false),sim_time(0),applies_total(0),nx(0),nsun(0),nrhos(0),nsc(0){}
+  Run():plan(0),live(0),have_plan_sc(false),need_apply(true),any_override(-1),hmin_raised(false),cur_hmin(0),acc_tol(0),t_ini(0),sum_dt(0),steps_total(0),trace_ops(false),shape(1469598103934665603ULL),nontrivial(false),sim_time(0),applies_total(0),nx(0),nsun(0),nrhos(0),nsc(0){}
   long opiseed() const{ return 1000+c.opi; }
   void shp(const std::string& s){ shape=fnv1a(s,shape); }
   void shp(long v){ shape=fnv1a(&v,sizeof v,shape); }
@@ -162,7 +162,8 @@ struct Run{
     if(have_plan_sc) sc=plan_sc; else { plan_sc=sc; have_plan_sc=true; }
     StepCfg saved=sc;
     if(hmin_raised){ sc.reject=0; sc.fail=0; if(sc.adaptive){ sc.abs=std::max(sc.abs,1e-4); sc.rel=std::max(sc.rel,1e-4); } if(sc.h<cur_hmin) sc.h=cur_hmin*10; }
-    apply_stepper(live);
+    if(need_apply){ apply_stepper(live); need_apply=false; }
+    else{ (void)(sc.is_sim()?sim_stepper(sc.tableau,sc.bufmode,sc.dydt_in):wrapped_stepper(sc.name)); }   // only re-arm the harness side of the stepper seam (which real stepper the wrapper delegates to)
     sc.reject=saved.reject&&!hmin_raised?saved.reject:0; 
     bool numerics=(any_override<0)?c.sw.any():(any_override==1);
     std::vector<double> before;
@@ -198,6 +199,10 @@ struct Run{
     }
     if(rc!=CALL_OK){ c.violation(evprop,"evolve:threw",sc.name,"Evolve threw \""+g_what+"\""); return; }
     if(numerics && c.rhs_evals>=2 && c.distinct_inputs>=2) nontrivial=true;
+    if(numerics && dt>0 && !sc.adaptive && sc.abs>=1e-6 && c.napply!=(long)sc.nsteps){
+      char b[160]; snprintf(b,sizeof b,"fixed stepping was configured with %u steps but the stepper was applied %ld times (mode or step count lost?)",sc.nsteps,c.napply);
+      c.violation(c.moved_in_run?"C10":evprop,"evolve:step-count",sc.name,b); return; }
+    if(numerics && dt>0 && sc.adaptive && !sc.is_sim() && sc.nsteps>=40 && c.napply==(long)sc.nsteps && c.rejections_fired==0 && c.failures_fired==0) c.ctr->add("probe_adaptive_run_with_exactly_nsteps_applies");
     if(numerics && dt>0 && c.rhs_evals==0){ c.violation(evprop,"evolve:no-integration","switches","numerical terms are enabled but Evolve never evaluated the right-hand side"); return; }
     sum_dt+=dt; steps_total+=sc.adaptive?c.napply:sc.nsteps;
     // clock
@@ -260,7 +265,7 @@ struct Run{
     c.hard_fail_at=1+(long)(o["at"].as_int(0)%4);
     int rc=lib_call([&]{ live->Evolve(0.5); });
     bool fired=(c.hard_fail_at<0); c.hard_fail_at=0;
-    sc=keep;
+    sc=keep; need_apply=true;
     shp("evolve_fail");
     if(fired){ c.ctr->add("fault_stepper_hard_error_fired"); nontrivial=true;
       if(rc!=CALL_EXCEPTION){ c.violation("C04","evolve:error-swallowed","hard-error","the ODE stepper reported an error but Evolve returned normally"); return; } }
@@ -277,7 +282,7 @@ struct Run{
     static const double mins[]={2.2250738585072014e-308,1e-9,1e-6,1e-4}; static const double maxs[]={1.7976931348623157e308,0.5,0.05};
     hmin_raised=(a>=2);
     lib_call([&]{ live->Set_h_max(maxs[b]); live->Set_h_min(mins[a]); });
-    cur_hmin=mins[a];
+    cur_hmin=mins[a]; need_apply=true;
     shp("limits"); shp((long)a*3+b);
   }
   // Set_AnyNumerics overrides the flag derived from the five switches until the next switch setter recomputes it
@@ -314,6 +319,8 @@ struct Run{
     c.moved_in_run=true; nontrivial=true;
     SimSolver* old=live; SimSolver* nw=0;
     double t_before=live->Get_t();
+    double set_before[7]={old->Get_h(),old->Get_h_min(),old->Get_h_max(),old->Get_abs_error(),old->Get_rel_error(),old->Get_NumSteps(),(double)old->Get_nx()};
+    std::vector<double> grid_before=old->Get_xrange();
     int rc;
     if(!assign) rc=lib_call([&]{ nw=new SimSolver(std::move(*old)); });
     else{
@@ -338,6 +345,10 @@ struct Run{
     dispose(old,o["reini_old"].as_bool(false));
     if(!c.out->ok) return;
     if(live->Get_t()!=t_before||live->Get_t_initial()!=t_ini){ c.violation("C10","clock:move",assign?"assign":"ctor","the clock changed when the solver was moved"); return; }
+    { double set_after[7]={live->Get_h(),live->Get_h_min(),live->Get_h_max(),live->Get_abs_error(),live->Get_rel_error(),live->Get_NumSteps(),(double)live->Get_nx()};
+      static const char* names[7]={"h","h_min","h_max","abs_error","rel_error","NumSteps","nx"};
+      for(int q=0;q<7;q++) if(set_after[q]!=set_before[q]){ c.violation("C10","move:setting-lost",names[q],std::string("the setting ")+names[q]+" did not travel with the solver when it was moved"); return; }
+      if(live->Get_xrange()!=grid_before){ c.violation("C10","move:setting-lost","grid","the node grid did not travel with the solver when it was moved"); return; } }
     // state must have travelled with the object
     for(unsigned ix=0;ix<nx&&c.out->ok;ix++) for(unsigned ir=0;ir<nrhos;ir++){
       std::vector<double> want=to_components(ref[ix*nrhos+ir]); double* got=live->rho_ptr(ix,ir);
@@ -526,7 +537,7 @@ struct Run{
     else if(op=="limits") op_limits(o);
     else if(op=="any_numerics") op_any_numerics(o);
     else if(op=="switch") op_switch(o);
-    else if(op=="stepper"){ read_stepper(o); plan_sc=sc; have_plan_sc=true; shp("stepper:"+sc.name); }
+    else if(op=="stepper"){ read_stepper(o); plan_sc=sc; have_plan_sc=true; need_apply=true; shp("stepper:"+sc.name); }
     else if(op=="move_ctor") op_move(o,false);
     else if(op=="move_assign") op_move(o,true);
     else if(op=="reini") op_reini(o);
